@@ -1187,7 +1187,7 @@ class Interp:
             base = self.eval(f.value, env)
             args = self.eval_args(e, env)
             if e.keywords and not (isinstance(base, tuple) and base and base[0] in ('module', 'hostattr')) and not (isinstance(base, AList) and f.attr == 'sort') \
-                    and not isinstance(base, (Sym, AObj, ARegex)) and not getattr(base, '_host_object', False):
+                    and not isinstance(base, (Sym, AObj, ARegex)) and not getattr(base, '_host_object', False) and not (type(base) is str and f.attr == 'format'):
                 self.bad(e, 'keyword arguments in a method call')
             self._kwargs = {}
             for kw in e.keywords:
@@ -2019,6 +2019,16 @@ class Interp:
             if kw:
                 return Sym('method', base, m, *args, tuple(sorted(kw.items(), key=lambda kv: kv[0])))
             return Sym('method', base, m, *args) if args else Sym('method', base, m)
+        if type(base) is str and m == 'format':
+            kw = dict(getattr(self, '_kwargs', None) or {})
+            self._kwargs = {}
+            plain = lambda v: v is None or isinstance(v, (bool, int, float, str))
+            if all(plain(a) for a in args) and all(plain(v) for v in kw.values()):
+                try:
+                    return base.format(*args, **kw)
+                except (IndexError, KeyError, ValueError) as exc:
+                    raise RaiseSig(type(exc).__name__, (str(exc),), e)
+            return Sym('format', base, tuple(args), tuple(sorted(kw.items(), key=lambda kv: kv[0])))
         if isinstance(base, str):
             if m == 'join':
                 items = self.iterate(args[0], e)
